@@ -104,6 +104,19 @@ __CPROVER_assigns(g_o_mask)
 #endif
 #endif
 
+#ifdef U_GET_PU_NUM_HC
+/* affinity_data::get_pu_num(num_thread, hardware_concurrency) for the only configuration --pika:bind admits
+ * (pu_offset_ == 0, pu_step_ == 1): worker i < hardware_concurrency gets PU number i.  Discharges the hypothesis
+ * "the cached PU number of worker k is k" of none.lemma (init_cached_pu_nums stores exactly these values). */
+struct affinity_data_ps { size_t pu_offset_, pu_step_; };
+//@FUNC
+size_t get_pu_num_hc(struct affinity_data_ps *self, size_t num_thread, size_t hardware_concurrency)
+__CPROVER_requires(self->pu_offset_ == 0 && self->pu_step_ == 1 && num_thread < hardware_concurrency)
+__CPROVER_ensures(__CPROVER_return_value == num_thread)
+__CPROVER_assigns()
+//@LIFT get_pu_num_hc
+#endif
+
 void harness(void)
 {
   struct affinity_data ad;
@@ -116,6 +129,13 @@ void harness(void)
   ad.pu_nums_size = nondet_size();
   ad.affinity_masks_size = nondet_size();
   ad.affinity_domain_ = nondet_int();
+#ifdef U_GET_PU_NUM_HC
+  struct affinity_data_ps ps;
+  ps.pu_offset_ = 0; ps.pu_step_ = 1;
+  size_t r = get_pu_num_hc(&ps, nondet_size(), nondet_size());
+  VX_REACH("returned");
+  if (r > 0) VX_REACH("nonzero_worker");
+#endif
 #ifdef U_NONE_BRANCH
   init_none_branch(&ad, g_pu_bound);
   if (g_k < ad.num_threads_ && g_k_punum == g_b) VX_REACH("victim_bit_set");
